@@ -187,16 +187,26 @@ def check_theorems(pid):
         return [{"name": n, "ok": False, "axioms": [], "error": out[-1500:]} for n in names] or \
                [{"name": f"Properties/{pid}.v", "ok": False, "axioms": [], "error": out[-1500:]}]
     # 2. assumptions, one marker per theorem
-    q = os.path.join(d, f"Assum_{pid}.v")
-    with open(q, "w") as f:
-        f.write("From Coq Require Import String.\n")
-        f.write(f"From Run Require Import Recheck_{pid}.\n")
-        for n in names:
-            f.write(f'Eval vm_compute in "@@{n}"%string.\nPrint Assumptions {n}.\n')
-    rc, out = coqc_file(q, timeout=600)
+    # (several coqc processes side by side: `Print Assumptions` walks the whole proof term of each theorem)
+    nchunk = min(4, max(1, len(names) // 4))
+    parts = [names[i::nchunk] for i in range(nchunk)]
+
+    def assum(k):
+        q = os.path.join(d, f"Assum_{pid}_{k}.v")
+        with open(q, "w") as f:
+            f.write("From Coq Require Import String.\n")
+            f.write(f"From Run Require Import Recheck_{pid}.\n")
+            for n in parts[k]:
+                f.write(f'Eval vm_compute in "@@{n}"%string.\nPrint Assumptions {n}.\n')
+        return coqc_file(q, timeout=600)
+    from concurrent.futures import ThreadPoolExecutor
+    with ThreadPoolExecutor(max_workers=nchunk) as ex:
+        outs = list(ex.map(assum, range(nchunk)))
     res = []
-    if rc != 0:
+    if any(rc_ != 0 for rc_, _ in outs):
+        out = "\n".join(o for rc_, o in outs if rc_ != 0)
         return [{"name": n, "ok": False, "axioms": [], "error": out[-1500:]} for n in names]
+    out = "\n".join(o for _, o in outs)
     chunks = re.split(r'=\s*"@@([A-Za-z0-9_\']+)"%?s?t?r?i?n?g?\s*:\s*string', out)
     # chunks: [pre, name1, body1, name2, body2, ...]
     for i in range(1, len(chunks), 2):
